@@ -391,3 +391,26 @@ def replay_overtime_stamp(prop, v):
 
 
 REPLAYS["Node.kill_server"] = replay_overtime_stamp
+
+
+def replay_class_change_during_zero_server_shift(prop, v):
+    """whole-run witness (E9): schedule with a 0-server first shift, pre-emptive priorities, a waiting low-priority customer whose class
+    (and priority) changes while nobody is on duty"""
+    ciw = _ciw()
+    N = ciw.create_network(
+        arrival_distributions={'Lo': [ciw.dists.Sequential([1.0, float('inf')])], 'Hi': [None]},
+        service_distributions={'Lo': [ciw.dists.Deterministic(2.0)], 'Hi': [ciw.dists.Deterministic(2.0)]},
+        number_of_servers=[ciw.Schedule(numbers_of_servers=[0, 1], shift_end_dates=[10, 100])],
+        priority_classes=({'Hi': 0, 'Lo': 1}, ['resume']),
+        class_change_time_distributions={'Lo': {'Hi': ciw.dists.Deterministic(3.0)}, 'Hi': {}})
+    Q = ciw.Simulation(N)
+    try:
+        Q.simulate_until_max_time(30)
+    except ValueError as e:
+        return dict(confirmed=True, kind="whole-run",
+                    transcript=f"0 servers until t=10, priorities with 'resume', class change Lo->Hi after waiting 3: at t=4 decide_preempt looks for a victim "
+                               f"among no servers and simulate_until_max_time(30) raises ValueError({e})")
+    return dict(confirmed=False, kind="whole-run", transcript="run completed")
+
+
+REPLAYS["Node.change_customer_class_while_waiting"] = replay_class_change_during_zero_server_shift
